@@ -35,7 +35,7 @@ CLAIMED = {
           "Trusted: vt/ref_isd.py for which empty regions paint. Histories are data (lists of operations) so the whole history shrinks as one value.",
           "DESIGN.md C14"),
   "C06": ("Hypothesis text-profile documents x writer configurations; output parsed by independent strict SRT/WebVTT parsers and compared with the reference interpreter's visible text per significant interval",
-          "Generated-input search: number, order, millisecond times and payload lines of the cues against expected cues derived from vt/ref_isd.py; documents are shaped so that several regions hold content at once and several div/p sit under one region.",
+          "Generated-input search: number, order, millisecond times and payload lines of the cues against expected cues derived from vt/ref_isd.py; documents are shaped so that several regions hold content at once and several div/p sit under one region; a part with intervals shorter than a millisecond (no cue when both ends round to the same millisecond, a 1 ms cue when they do not).",
           "Trusted: vt/cueparse.py (self-tested), vt/cuecheck.py, vt/ref_isd.py. Significant times are taken from ttconv (C02 covers their completeness). Paragraphs with preserved white space are compared by non-space characters.",
           "DESIGN.md C06"),
   "C07": ("Hypothesis styled / markup-text / sub-millisecond documents x writer configurations; strict grammar parsers; per-character style runs recovered from tags vs reference computed styles; cue settings vs reference geometry",
@@ -76,10 +76,10 @@ CLAIMED = {
           "DESIGN.md C08"),
   "C18": ("Hypothesis structure-aware mutation of corpus and grammar-generated inputs per reader, outcome classifier, full downstream pipeline; atheris (libFuzzer) campaigns per reader in the thorough tier",
           "Fuzzing: every reader on valid, mutated and degenerate inputs must return a document, return None after a fatal log record, or raise ParseError / ValueError / struct.error / UnicodeDecodeError; every returned document must survive significant times, snapshots (cached and uncached), the generated sequence, the LCD filter and all writers under all configurations; per-case watchdog for termination.",
-          "Sampling only. Allowed exception set transcribed from the property. Known findings: WebVTT ruby crash families (C11) and ruby children pruned in snapshots (I-3).",
+          "Sampling only. Allowed exception set transcribed from the property. Known findings: the two WebVTT ruby crash families (same root causes as in C11).",
           "DESIGN.md C18"),
   "C15": ("model-based testing of call histories: Hypothesis-generated operation lists over a fixed universe interpreted against the real API and an abstract tree model, invariant walker after every call; bounded exhaustive enumeration of all call sequences of length <= 2 (quick) / 3 (thorough)",
-          "Histories over two documents, 67 named objects and 14 operations with valid and invalid arguments; after every accepted or rejected call: link consistency, acyclicity, single parent, one document per tree, content model (ruby / rtc patterns), region references are the registered objects, stored values valid, rejected calls leave the model unchanged, accepted calls have the modelled effect. All sequences up to the bound over a 92-call alphabet are enumerated.",
+          "Histories over two documents, 67 named objects and 14 operations with valid and invalid arguments; after every accepted or rejected call: link consistency, acyclicity, single parent, one document per tree, content model (ruby / rtc patterns), region references are the registered objects, stored values valid, rejected calls leave the model unchanged, accepted calls have the modelled effect. All sequences up to the bound over a fixed call alphabet are enumerated, and every style property x universe value pair through every value-storing call.",
           "Histories are data interpreted by the check (equivalent to a rule-based state machine; the whole history shrinks as one value). Known findings: region references of elements that are not below the body cannot be maintained (orphan forms).",
           "DESIGN.md C15"),
 }
